@@ -555,7 +555,8 @@ class AssertAsyncRequests(_Sched):
     def native_search(self, budget):
         for su in (False, True):
             for sw in (False, True):
-                yield {"successor": su, "async": sw}
+                for other in (False, True):       # another simulator that IS a legitimate async partner of src_sim
+                    yield {"successor": su, "async": sw, "other_async_partner": other}
 
     def native_call(self, m):
         if "successor" not in m:
@@ -572,13 +573,18 @@ class AssertAsyncRequests(_Sched):
                 a.successors[b] = TieredInterval(0)
             if m["async"]:
                 a.successors_to_wait_for[b] = TieredInterval(0)
+            if m.get("other_async_partner"):
+                c = SimRunner("C", _StubProxy("hybrid"))
+                a.successors[c] = TieredInterval(0)
+                a.successors_to_wait_for[c] = TieredInterval(0)
             try:
                 MosaikRemote(w, "B")._assert_async_requests(a, b)
                 raised = False
             except ScenarioError:
                 raised = True
             expect = not (m["successor"] and m["async"])
-            return raised == expect, f"_assert_async_requests with successor={m['successor']}, async enabled={m['async']}: raised={raised}, expected {expect}"
+            return raised == expect, (f"_assert_async_requests with successor={m['successor']}, async enabled={m['async']}, another async partner: "
+                                       f"{bool(m.get('other_async_partner'))}: raised={raised}, expected {expect}")
         finally:
             w.loop.close()
 
